@@ -429,7 +429,7 @@ Definition s_extract (G : nxg) (g : N) : option igraph :=
 
 Definition s_clone (s : store) (g g2 : N) : store * res :=
   match s_extract (sg s) g with
-  | None => (s, Err EAttr)                   (* None.copy() *)
+  | None => (s, Err EQuery)                  (* a graph without nodes cannot be cloned (fix fdc67eb) *)
   | Some ig => s_add_graph s g2 ig
   end.
 
@@ -775,7 +775,7 @@ Fixpoint first_bad_shared (s : store) (last : nxg) (i : N) (l : list sstep_obs) 
 (* implementation's own previous store (state injection), so that a difference INSIDE the       *)
 (* addressed graph (C05's business, checked by C05's lock-step stream on the same model) neither *)
 (* alarms here nor cascades.  Compared: for the storage operations (import, direct import,     *)
-(* delete graph, clone) result, whole store and start_id; for every other operation what every  *)
+(* delete graph, clone) the whole store and start_id (not the result class); for every other operation what every  *)
 (* graph id the operation is not addressed to sees (nodes, internal ids, properties, links);    *)
 (* and, on the implementation's own transition, the allocator discipline (new internal ids are  *)
 (* at or above the previous start_id, all ids below the new one, no id twice).                  *)
@@ -811,7 +811,7 @@ Fixpoint check_iso_shared_from (prev : nxg) (pn : N) (l : list iso_obs) : bool :
       let cur := match snap with Some x => x | None => prev end in
       let '(s', r') := sstep (mkS prev pn) o in
       alloc_ok prev pn cur cn &&
-      (if storage_op o then res_eqb r' r && nxg_eqb (sg s') cur && N.eqb (snext s') cn
+      (if storage_op o then nxg_eqb (sg s') cur && N.eqb (snext s') cn
        else (negb (frame_scope o) && match o with OMerge _ _ _ _ => false | _ => true end) ||   (* re-homing by rewriting GraphID: no isolation claim *)
             forallb (fun g => writes_gid o g || view_eqb (view (sg s') g) (view cur g))
                     (gids_of_nodes (gn prev) ++ gids_of_nodes (gn cur) ++ gids_of_nodes (gn (sg s')))) &&
